@@ -40,14 +40,16 @@ structure TInv (sh : Shared) (o : Option Nat) (i : Nat) (t : Thread) : Prop wher
   cur : t.holds = true → t.base + t.res.length = sh.clock
   locCur : (t.pc = .sim ∨ t.pc = .write) → t.loc = sh.clock
   suspOk : t.susp = true → t.pc ≠ .done → (t.pc = .genStart ∨ t.holds = true)
+  noGen : t.pc ≠ .genStart
 
 structure Inv (s : State) : Prop where
-  ex : ∃ o : Option Nat, s.sh.lock = o.isSome ∧ ∀ i t, s.ths[i]? = some t → TInv s.sh o i t
+  ex : ∃ o : Option Nat, s.sh.lock = o.isSome ∧ (∀ i t, s.ths[i]? = some t → TInv s.sh o i t) ∧
+    (∀ i, o = some i → i < s.ths.length)
   prod : s.sh.produced = List.range s.sh.clock
   sum : sumLen s.ths = s.sh.clock
 
 theorem inv_init (stop : Nat) (ks : List Kind) : Inv (State.init stop ks) := by
-  refine ⟨⟨none, rfl, ?_⟩, rfl, ?_⟩
+  refine ⟨⟨none, rfl, ?_, by simp⟩, rfl, ?_⟩
   · intro i t h
     simp only [State.init, List.getElem?_map, Option.map_eq_some_iff] at h
     obtain ⟨k, _, rfl⟩ := h
@@ -77,7 +79,7 @@ theorem TInv_frame {sh sh' : Shared} {o o' : Option Nat} {i j : Nat} {t : Thread
       constructor
       · intro hh; simp_all
       · intro hh; rcases h2 with h2 | h2 <;> simp_all
-  refine ⟨hown', h.preFree, h.actHolds, h.doneFree, h.consec, ?_, ?_, h.suspOk⟩
+  refine ⟨hown', h.preFree, h.actHolds, h.doneFree, h.consec, ?_, ?_, h.suspOk, h.noGen⟩
   · intro hh
     rcases hc with hc | hc
     · rw [hc]; exact h.cur hh
@@ -96,30 +98,186 @@ theorem range'_snoc (b n : Nat) : List.range' b n ++ [b + n] = List.range' b (n 
 def newOwner (o : Option Nat) (i : Nat) (t t' : Thread) : Option Nat :=
   if t'.holds then some i else if t.holds then none else o
 
+theorem TInv_iff (sh : Shared) (o : Option Nat) (i : Nat) (t : Thread) :
+    TInv sh o i t ↔
+      ((t.holds = true ↔ o = some i) ∧ (t.pc.pre = true → t.holds = false ∧ t.res = []) ∧
+       (t.pc.active = true → t.holds = true) ∧ (t.pc = .done → t.holds = false) ∧
+       (t.res = List.range' t.base t.res.length) ∧ (t.holds = true → t.base + t.res.length = sh.clock) ∧
+       ((t.pc = .sim ∨ t.pc = .write) → t.loc = sh.clock) ∧
+       (t.susp = true → t.pc ≠ .done → (t.pc = .genStart ∨ t.holds = true)) ∧ t.pc ≠ .genStart) :=
+  ⟨fun h => ⟨h.1, h.2, h.3, h.4, h.5, h.6, h.7, h.8, h.9⟩, fun h => ⟨h.1, h.2.1, h.2.2.1, h.2.2.2.1, h.2.2.2.2.1,
+    h.2.2.2.2.2.1, h.2.2.2.2.2.2.1, h.2.2.2.2.2.2.2.1, h.2.2.2.2.2.2.2.2⟩⟩
+
 /-- What one transition of thread `i` does to the invariant (good configuration). -/
+def Spec (sh : Shared) (o : Option Nat) (i : Nat) (t : Thread) (r : Shared × Thread × Lbl) : Prop :=
+    r.1.lock = (newOwner o i t r.2.1).isSome ∧
+    TInv r.1 (newOwner o i t r.2.1) i r.2.1 ∧
+    (r.1.clock = sh.clock ∨ o = some i) ∧
+    (newOwner o i t r.2.1 = o ∨ ((o = none ∨ o = some i) ∧ (newOwner o i t r.2.1 = none ∨ newOwner o i t r.2.1 = some i))) ∧
+    ((r.1.clock = sh.clock ∧ r.1.produced = sh.produced ∧ r.2.1.res.length = t.res.length) ∨
+     (r.1.clock = sh.clock + 1 ∧ r.1.produced = sh.produced ++ [sh.clock] ∧ r.2.1.res.length = t.res.length + 1))
+
 theorem stepT_spec (c : Cfg) (hc : c.good = true) (sh : Shared) (o : Option Nat) (i : Nat) (t : Thread) (ev : Ev)
-    (hl : sh.lock = o.isSome) (ht : TInv sh o i t) :
-    (stepT c sh t ev).1.lock = (newOwner o i t (stepT c sh t ev).2.1).isSome ∧
-    TInv (stepT c sh t ev).1 (newOwner o i t (stepT c sh t ev).2.1) i (stepT c sh t ev).2.1 ∧
-    ((stepT c sh t ev).1.clock = sh.clock ∨ o = some i) ∧
-    (((stepT c sh t ev).1.clock = sh.clock ∧ (stepT c sh t ev).1.produced = sh.produced ∧
-        (stepT c sh t ev).2.1.res.length = t.res.length) ∨
-     ((stepT c sh t ev).1.clock = sh.clock + 1 ∧ (stepT c sh t ev).1.produced = sh.produced ++ [sh.clock] ∧
-        (stepT c sh t ev).2.1.res.length = t.res.length + 1)) := by
+    (hl : sh.lock = o.isSome) (ht : TInv sh o i t) : Spec sh o i t (stepT c sh t ev) := by
   obtain ⟨a, b, d, e, f⟩ := c
   simp only [Cfg.good, Bool.and_eq_true] at hc
   obtain ⟨⟨⟨⟨rfl, rfl⟩, rfl⟩, rfl⟩, rfl⟩ := hc
-  obtain ⟨h1, h2, h3, h4, h5, h6, h7, h8⟩ := ht
+  obtain ⟨h1, h2, h3, h4, h5, h6, h7, h8, h9⟩ := ht
   obtain ⟨kind, pc, st, rem, first, loc, res, msgs, susp, holds, base⟩ := t
   obtain ⟨lock, clock, stop, produced⟩ := sh
-  simp only at h1 h2 h3 h4 h5 h6 h7 h8 hl
+  simp only at h1 h2 h3 h4 h5 h6 h7 h8 h9 hl
   cases ev
+  · cases pc
+    case start =>
+      cases lock <;> cases kind <;> by_cases hr0 : rem = 0 <;>
+        simp [Spec, TInv_iff, stepT, stepGo, readLock, testAndSet, refuse, acquired, newOwner, Pc.pre, Pc.active, hr0] at * <;> grind
+    case checked =>
+      cases lock <;> cases kind <;> by_cases hr0 : rem = 0 <;>
+        simp [Spec, TInv_iff, stepT, stepGo, testAndSet, refuse, acquired, newOwner, Pc.pre, Pc.active, hr0] at * <;> grind
+    case genStart => simp at h9
+    case prog =>
+      by_cases hcs : clock ≤ stop <;> cases first <;>
+        simp [Spec, TInv_iff, stepT, stepGo, newOwner, Pc.pre, Pc.active, hcs] at * <;> grind
+    case read =>
+      by_cases hcs : clock ≤ stop <;> by_cases hr1 : rem ≤ 1 <;> cases kind <;>
+        simp [Spec, TInv_iff, stepT, stepGo, afterStep, newOwner, Pc.pre, Pc.active, hcs, hr1] at * <;> grind
+    case write =>
+      have hsn := range'_snoc base res.length
+      by_cases hr1 : rem ≤ 1 <;> cases kind <;>
+        simp [Spec, TInv_iff, stepT, stepGo, afterStep, newOwner, Pc.pre, Pc.active, hr1] at * <;> grind
+    all_goals
+      simp [Spec, TInv_iff, stepT, stepGo, newOwner, Pc.pre, Pc.active] at * <;> grind
   · cases pc <;> cases kind <;>
-      simp [stepT, stepGo, readLock, testAndSet, setLock, refuse, acquired, afterStep, newOwner, Pc.pre, Pc.active] at * <;>
-      sorry
-  · cases pc <;> cases kind <;>
-      simp [stepT, stepFail, newOwner, Pc.pre, Pc.active] at * <;> sorry
-  · cases pc <;> cases kind <;>
-      simp [stepT, stepGone, newOwner, Pc.pre, Pc.active] at * <;> trace_state <;> sorry
+      simp [Spec, TInv_iff, stepT, stepFail, newOwner, Pc.pre, Pc.active] at * <;> grind
+  · cases susp <;> cases pc <;>
+      simp [Spec, TInv_iff, stepT, stepGone, newOwner, Pc.pre, Pc.active] at * <;> grind
+
+theorem sumLen_set (ths : List Thread) (i : Nat) (t t' : Thread) (h : ths[i]? = some t) :
+    sumLen (ths.set i t') + t.res.length = sumLen ths + t'.res.length := by
+  induction ths generalizing i with
+  | nil => simp at h
+  | cons x rest ih =>
+    cases i with
+    | zero => simp at h; subst h; simp [sumLen]; omega
+    | succ n =>
+      simp at h
+      have := ih n h
+      simp [sumLen] at this ⊢; omega
+
+theorem inv_step (c : Cfg) (hc : c.good = true) (s : State) (a : Nat × Ev) (h : Inv s) : Inv (step c s a).1 := by
+  unfold step
+  cases hget : s.ths[a.1]? with
+  | none => exact h
+  | some t =>
+    obtain ⟨o, hl, hall, hex⟩ := h.ex
+    obtain ⟨s1, s2, s3, s4, s5⟩ := stepT_spec c hc s.sh o a.1 t a.2 hl (hall _ _ hget)
+    have hlen : a.1 < s.ths.length := by
+      have := List.getElem?_eq_some_iff.mp hget; exact this.1
+    refine ⟨⟨newOwner o a.1 t (stepT c s.sh t a.2).2.1, s1, ?_, ?_⟩, ?_, ?_⟩
+    · intro j tj hj
+      simp only [List.getElem?_set] at hj
+      by_cases hij : a.1 = j
+      · subst hij
+        simp [hlen] at hj
+        subst hj; exact s2
+      · simp [hij] at hj
+        exact TInv_frame (hall _ _ hj) (fun h => hij h.symm) s3 s4
+    · intro j hj
+      simp only [List.length_set]
+      unfold newOwner at hj
+      split at hj
+      · simp at hj; omega
+      · split at hj
+        · simp at hj
+        · exact hex j hj
+    · show (stepT c s.sh t a.2).1.produced = List.range (stepT c s.sh t a.2).1.clock
+      rcases s5 with ⟨e1, e2, _⟩ | ⟨e1, e2, _⟩
+      · rw [e1, e2]; exact h.prod
+      · rw [e1, e2, h.prod, List.range_succ]
+    · show sumLen (s.ths.set a.1 (stepT c s.sh t a.2).2.1) = (stepT c s.sh t a.2).1.clock
+      have hs := sumLen_set s.ths a.1 t (stepT c s.sh t a.2).2.1 hget
+      have := h.sum
+      rcases s5 with ⟨e1, _, e3⟩ | ⟨e1, _, e3⟩ <;> omega
+
+theorem inv_run (c : Cfg) (hc : c.good = true) (sched : Schedule) : ∀ s, Inv s → Inv (run c s sched) := by
+  induction sched with
+  | nil => intro s h; exact h
+  | cons a rest ih => intro s h; exact ih _ (inv_step c hc s a h)
+
+theorem inv_reachable (c : Cfg) (hc : c.good = true) (stop : Nat) (ks : List Kind) (sched : Schedule) :
+    Inv (run c (State.init stop ks) sched) := inv_run c hc sched _ (inv_init stop ks)
+
+theorem consec_head (b : Nat) (l : List Nat) (h : l = List.range' b l.length) :
+    l = List.range' (l.headD 0) l.length := by
+  cases l with
+  | nil => rfl
+  | cons x rest =>
+    simp only [List.length_cons, List.range'_succ, List.cons.injEq] at h
+    simp only [List.headD_cons]
+    obtain ⟨rfl, h2⟩ := h
+    simpa [List.range'_succ] using h2
+
+/-- a request that has not passed its lock test is refused by its next action when the lock is taken. -/
+theorem refused_when_locked (c : Cfg) (hc : c.good = true) (sh : Shared) (t : Thread) (hl : sh.lock = true)
+    (hp : t.pc.pre = true) (hg : t.pc ≠ .genStart) (hr : t.res = []) :
+    (stepT c sh t .go).2.1.st = .refused ∧ (stepT c sh t .go).2.1.pc = .done ∧ (stepT c sh t .go).2.1.res = [] := by
+  obtain ⟨a, b, d, e, f⟩ := c
+  simp only [Cfg.good, Bool.and_eq_true] at hc
+  obtain ⟨⟨⟨⟨rfl, rfl⟩, rfl⟩, rfl⟩, rfl⟩ := hc
+  obtain ⟨kind, pc, st, rem, first, loc, res, msgs, susp, holds, base⟩ := t
+  simp only at hp hg hr
+  cases pc <;> cases kind <;> simp [Pc.pre] at hp hg <;>
+    simp [stepT, stepGo, readLock, testAndSet, refuse, hl, hr]
+
+theorem C18_full_of_good (c : Cfg) (hc : c.good = true) : C18_full c := by
+  intro stop ks sched s
+  have hinv : Inv s := inv_reachable c hc stop ks sched
+  obtain ⟨o, hl, hall, hex⟩ := hinv.ex
+  have mutex : ∀ (i j : Nat) (ti tj : Thread), s.ths[i]? = some ti → s.ths[j]? = some tj →
+      ti.holds = true → tj.holds = true → i = j := by
+    intro i j ti tj hi hj h1 h2
+    have a := (hall i ti hi).own.mp h1
+    have b := (hall j tj hj).own.mp h2
+    rw [a] at b; exact Option.some.inj b
+  refine ⟨mutex, ?_, ?_, ?_, ?_, ?_, ?_, ?_⟩
+  · intro i j ti tj hi hj hne h1
+    cases hact : tj.pc.active with
+    | false => rfl
+    | true => exact absurd (mutex i j ti tj hi hj h1 ((hall j tj hj).actHolds hact)) hne
+  · intro i j ti tj tj' hi hj hne h1 hnd hstep
+    have hjnot : tj.holds = false := by
+      cases hh : tj.holds with
+      | false => rfl
+      | true => exact absurd (mutex i j ti tj hi hj h1 hh) hne
+    have hjinv := hall j tj hj
+    have hpre : tj.pc.pre = true := by
+      have hna : tj.pc.active = false := by
+        cases hact : tj.pc.active with
+        | false => rfl
+        | true => have := hjinv.actHolds hact; simp [hjnot] at this
+      revert hna hnd; cases tj.pc <;> simp [Pc.pre, Pc.active]
+    have hlock : s.sh.lock = true := by
+      rw [hl, (hall i ti hi).own.mp h1]; rfl
+    have hlen : j < s.ths.length := (List.getElem?_eq_some_iff.mp hj).1
+    simp only [step, hj, List.getElem?_set, hlen] at hstep
+    simp at hstep
+    subst hstep
+    exact refused_when_locked c hc s.sh tj hlock hpre hjinv.noGen (hjinv.preFree hpre).2
+  · intro t ht
+    obtain ⟨i, hi⟩ := List.getElem?_of_mem ht
+    exact consec_head _ _ (hall i t hi).consec
+  · rw [hinv.prod]; exact List.nodup_range
+  · exact hinv.sum.symm
+  · intro hlk
+    rw [hl] at hlk
+    cases o with
+    | none => simp at hlk
+    | some i =>
+      have hlen := hex i rfl
+      refine ⟨s.ths[i], List.getElem_mem hlen, ?_⟩
+      exact (hall i _ (List.getElem?_eq_getElem hlen)).own.mpr rfl
+  · intro t ht hd
+    obtain ⟨i, hi⟩ := List.getElem?_of_mem ht
+    exact (hall i t hi).doneFree hd
 
 end Bptk.C18
